@@ -172,3 +172,24 @@ def base_grammars():
     ], tags=["optional parts", "EOF reduce"]))
 
     return gs
+
+
+def recovery_grammars():
+    """Grammars with `!` (error recovery).  Specification reading: `!` is a terminal that never occurs in the input."""
+    gs = []
+    gs.append(Grammar("rec_stmts", terms("x ; ( )"), [
+        NT("S", [A(), A("S", "St")], pub=True),
+        NT("St", [A("E", ";"), A(Err(), ";")]),
+        NT("E", [A("x"), A("(", "E", ")"), A("(", Err(), ")")]),
+    ], tags=["error productions at two depths", "error column"]))
+    gs.append(Grammar("rec_list", terms("a , [ ]"), [
+        NT("L", [A("[", "Items", "]"), A("[", "]")], pub=True),
+        NT("Items", [A("Item"), A("Items", ",", "Item")]),
+        NT("Item", [A("a"), A("L"), A(Err())]),
+    ], tags=["error production as a whole item", "reduce under `!`"]))
+    gs.append(Grammar("rec_expr", terms("n + * ( )"), [
+        NT("E", [A("E", "+", "T"), A("T")], pub=True),
+        NT("T", [A("T", "*", "F"), A("F")]),
+        NT("F", [A("n"), A("(", "E", ")"), A(Err())]),
+    ], tags=["calculator with error recovery (book chapter 8)"]))
+    return gs
